@@ -551,16 +551,47 @@ theorem foldl_replace_render (esc : Char → Str) (vs : List (Str × Str)) (is :
       hclean' hrefs' (noJoin_step esc m w rest is hnj)
     rw [this, map_fill_cons]
 
-/-! ### The sort -/
+/-! ### The sorts -/
 
-theorem mem_insertByLen {β : Type} (x y : Str × β) (l : List (Str × β)) :
-    y ∈ insertByLen x l ↔ y = x ∨ y ∈ l := by
+/-- What the substitution needs of the comparator: it is a longest-first order (`before a b` only if `a` is at
+least as long, `¬ before a b` only if `b` is at least as long) and strict (never relates a name to itself, so a
+stable sort keeps the first entry of every name first). -/
+structure LawfulBefore (before : Str → Str → Bool) : Prop where
+  len_of_before : ∀ a b, before a b = true → blen b ≤ blen a
+  len_of_not : ∀ a b, before a b = false → blen a ≤ blen b
+  irrefl : ∀ a, before a a = false
+
+theorem lawful_lenBefore : LawfulBefore lenBefore := by
+  refine ⟨?_, ?_, ?_⟩
+  · intro a b h; simp [lenBefore] at h; omega
+  · intro a b h; simp [lenBefore] at h; omega
+  · intro a; simp [lenBefore]
+
+theorem strLt_irrefl (a : Str) : strLt a a = false := by
+  induction a with
+  | nil => rfl
+  | cons c cs ih => simp [strLt, ih]
+
+theorem lawful_varBefore : LawfulBefore varBefore := by
+  refine ⟨?_, ?_, ?_⟩
+  · intro a b h
+    simp only [varBefore, Bool.or_eq_true, Bool.and_eq_true, decide_eq_true_eq] at h
+    rcases h with h | h <;> omega
+  · intro a b h
+    simp only [varBefore, Bool.or_eq_false_iff, Bool.and_eq_false_iff, decide_eq_false_iff_not] at h
+    omega
+  · intro a; simp [varBefore, strLt_irrefl]
+
+section generic
+variable {before : Str → Str → Bool}
+
+theorem mem_insertBy {β : Type} (x y : Str × β) (l : List (Str × β)) :
+    y ∈ insertBy before x l ↔ y = x ∨ y ∈ l := by
   induction l with
-  | nil => simp [insertByLen]
+  | nil => simp [insertBy]
   | cons z zs ih =>
-    simp only [insertByLen]
+    simp only [insertBy]
     split
-    · simp
     · simp only [List.mem_cons, ih]
       constructor
       · rintro (h | h | h)
@@ -571,50 +602,52 @@ theorem mem_insertByLen {β : Type} (x y : Str × β) (l : List (Str × β)) :
         · right; left; exact h
         · left; exact h
         · right; right; exact h
+    · simp
 
-theorem mem_sortByLen {β : Type} (y : Str × β) (l : List (Str × β)) : y ∈ sortByLen l ↔ y ∈ l := by
+theorem mem_sortBy {β : Type} (y : Str × β) (l : List (Str × β)) : y ∈ sortBy before l ↔ y ∈ l := by
   induction l with
-  | nil => simp [sortByLen]
-  | cons x xs ih => simp [sortByLen, mem_insertByLen, ih]
+  | nil => simp [sortBy]
+  | cons x xs ih => simp [sortBy, mem_insertBy, ih]
 
-theorem sorted_insertByLen {β : Type} (x : Str × β) (l : List (Str × β)) (h : Sorted l) :
-    Sorted (insertByLen x l) := by
+theorem sorted_insertBy (hb : LawfulBefore before) {β : Type} (x : Str × β) (l : List (Str × β)) (h : Sorted l) :
+    Sorted (insertBy before x l) := by
   induction l with
-  | nil => simp [insertByLen, Sorted]
+  | nil => simp [insertBy, Sorted]
   | cons z zs ih =>
-    simp only [insertByLen]
+    simp only [insertBy]
     have hz := List.pairwise_cons.mp h
     split
-    · rename_i hle
+    · rename_i hbz
+      refine List.pairwise_cons.mpr ⟨?_, ih hz.2⟩
+      intro y hy
+      rcases (mem_insertBy x y zs).mp hy with rfl | hy'
+      · exact hb.len_of_before _ _ hbz
+      · exact hz.1 y hy'
+    · rename_i hnb
+      have hle : blen z.1 ≤ blen x.1 := hb.len_of_not _ _ (by simpa using hnb)
       refine List.pairwise_cons.mpr ⟨?_, h⟩
       intro y hy
       rcases List.mem_cons.mp hy with rfl | hy'
       · exact hle
       · exact Nat.le_trans (hz.1 y hy') hle
-    · rename_i hnle
-      refine List.pairwise_cons.mpr ⟨?_, ih hz.2⟩
-      intro y hy
-      rcases (mem_insertByLen x y zs).mp hy with rfl | hy'
-      · omega
-      · exact hz.1 y hy'
 
-theorem sorted_sortByLen {β : Type} (l : List (Str × β)) : Sorted (sortByLen l) := by
+theorem sorted_sortBy (hb : LawfulBefore before) {β : Type} (l : List (Str × β)) : Sorted (sortBy before l) := by
   induction l with
-  | nil => simp [sortByLen, Sorted]
-  | cons x xs ih => exact sorted_insertByLen x _ ih
+  | nil => simp [sortBy, Sorted]
+  | cons x xs ih => exact sorted_insertBy hb x _ ih
 
-/-- Stability: the element that is moved only passes strictly longer names, so the first entry of every
+/-- Stability: the element that is moved only passes names different from its own, so the first entry of every
 name stays the first. -/
-theorem lookup_insertByLen {β : Type} (x : Str × β) (l : List (Str × β)) (n : Str) :
-    (insertByLen x l).lookup n = (x :: l).lookup n := by
+theorem lookup_insertBy (hb : LawfulBefore before) {β : Type} (x : Str × β) (l : List (Str × β)) (n : Str) :
+    (insertBy before x l).lookup n = (x :: l).lookup n := by
   induction l with
-  | nil => simp [insertByLen]
+  | nil => simp [insertBy]
   | cons z zs ih =>
-    simp only [insertByLen]
+    simp only [insertBy]
     split
-    · rfl
-    · rename_i hnle
-      have hne : z.1 ≠ x.1 := by intro e; rw [e] at hnle; omega
+    · rename_i hbz
+      have hne : z.1 ≠ x.1 := by
+        intro e; rw [e, hb.irrefl] at hbz; simp at hbz
       obtain ⟨zk, zv⟩ := z
       obtain ⟨xk, xv⟩ := x
       simp only [List.lookup_cons] at ih ⊢
@@ -625,30 +658,33 @@ theorem lookup_insertByLen {β : Type} (x : Str × β) (l : List (Str × β)) (n
         simp [this]
       · have : (n == zk) = false := by simpa using h1
         simp [this]
+    · rfl
 
-theorem lookup_sortByLen {β : Type} (l : List (Str × β)) (n : Str) : (sortByLen l).lookup n = l.lookup n := by
+theorem lookup_sortBy (hb : LawfulBefore before) {β : Type} (l : List (Str × β)) (n : Str) :
+    (sortBy before l).lookup n = l.lookup n := by
   induction l with
-  | nil => simp [sortByLen]
+  | nil => simp [sortBy]
   | cons x xs ih =>
     obtain ⟨xk, xv⟩ := x
-    simp only [sortByLen]
-    rw [lookup_insertByLen]
+    simp only [sortBy]
+    rw [lookup_insertBy hb]
     simp only [List.lookup_cons, ih]
 
-theorem mem_names_sortByLen {β : Type} (l : List (Str × β)) (n : Str) : n ∈ names (sortByLen l) ↔ n ∈ names l := by
+theorem mem_names_sortBy {β : Type} (l : List (Str × β)) (n : Str) :
+    n ∈ names (sortBy before l) ↔ n ∈ names l := by
   simp only [names, List.mem_map]
   constructor
-  · rintro ⟨p, hp, rfl⟩; exact ⟨p, (mem_sortByLen p l).mp hp, rfl⟩
-  · rintro ⟨p, hp, rfl⟩; exact ⟨p, (mem_sortByLen p l).mpr hp, rfl⟩
+  · rintro ⟨p, hp, rfl⟩; exact ⟨p, (mem_sortBy p l).mp hp, rfl⟩
+  · rintro ⟨p, hp, rfl⟩; exact ⟨p, (mem_sortBy p l).mpr hp, rfl⟩
 
-theorem fill_sortByLen (vs : List (Str × Str)) : fill (sortByLen vs) = fill vs := by
+theorem fill_sortBy (hb : LawfulBefore before) (vs : List (Str × Str)) : fill (sortBy before vs) = fill vs := by
   funext i
   cases i with
-  | ref n => simp [fill, lookup_sortByLen]
+  | ref n => simp [fill, lookup_sortBy hb]
   | _ => simp [fill]
 
-theorem noJoinP_sortByLen (esc : Char → Str) (vs : List (Str × Str)) (is : List Item)
-    (h : NoJoinP esc vs is) : NoJoinP esc (sortByLen vs) is := by
+theorem noJoinP_sortBy (hb : LawfulBefore before) (esc : Char → Str) (vs : List (Str × Str)) (is : List Item)
+    (h : NoJoinP esc vs is) : NoJoinP esc (sortBy before vs) is := by
   induction is with
   | nil => simp [NoJoinP]
   | cons i is ih =>
@@ -659,14 +695,26 @@ theorem noJoinP_sortByLen (esc : Char → Str) (vs : List (Str × Str)) (is : Li
       simp only [NoJoinP] at h ⊢
       refine ⟨?_, ih h.2⟩
       intro m hm
-      rw [fill_sortByLen]
-      exact h.1 m ((mem_names_sortByLen vs m).mp hm)
+      rw [fill_sortBy hb]
+      exact h.1 m ((mem_names_sortBy vs m).mp hm)
     | ref n =>
       simp only [NoJoinP] at h ⊢
       refine ⟨?_, ih h.2⟩
       intro m hm
-      rw [fill_sortByLen]
-      exact h.1 m ((mem_names_sortByLen vs m).mp hm)
+      rw [fill_sortBy hb]
+      exact h.1 m ((mem_names_sortBy vs m).mp hm)
+
+end generic
+
+/-! the sort of `MarkerString::new` -/
+
+theorem mem_sortByLen {β : Type} (y : Str × β) (l : List (Str × β)) : y ∈ sortByLen l ↔ y ∈ l := mem_sortBy y l
+theorem sorted_sortByLen {β : Type} (l : List (Str × β)) : Sorted (sortByLen l) := sorted_sortBy lawful_lenBefore l
+theorem lookup_sortByLen {β : Type} (l : List (Str × β)) (n : Str) : (sortByLen l).lookup n = l.lookup n :=
+  lookup_sortBy lawful_lenBefore l n
+theorem mem_names_sortByLen {β : Type} (l : List (Str × β)) (n : Str) : n ∈ names (sortByLen l) ↔ n ∈ names l :=
+  mem_names_sortBy l n
+theorem fill_sortByLen (vs : List (Str × Str)) : fill (sortByLen vs) = fill vs := fill_sortBy lawful_lenBefore vs
 
 /-! ### What the parser produces -/
 
